@@ -67,11 +67,17 @@ theorem secStep_level (op : Options) (io : IndentOpts) (n : Nat) (acc : Out × N
   · simp only
     split <;> split <;> simp [hf]
 
-theorem textLineStep_level (op : Options) (io : IndentOpts) (mx : Nat) (acc : Out) (x : List VTok × Nat) :
-    (textLineStep op io mx acc x).level = acc.level := by
+theorem textLineStep_level (op : Options) (io : IndentOpts) (mx field : Nat) (acc : Out × Nat) (x : List VTok × Nat) :
+    (textLineStep op io mx field acc x).1.level = acc.1.level := by
   unfold textLineStep
   simp only
   (repeat' split) <;> simp
+
+theorem textLines_level (op : Options) (io : IndentOpts) (mx field : Nat) (l : List (List VTok × Nat)) (acc : Out × Nat) :
+    (l.foldl (textLineStep op io mx field) acc).1.level = acc.1.level := by
+  induction l generalizing acc with
+  | nil => rfl
+  | cons a l ih => simp only [List.foldl_cons]; rw [ih, textLineStep_level]
 
 @[simp] theorem pushValue_level (op : Options) (io : IndentOpts) (node : ANode) (o : Out) :
     (pushValue op io node o).level = o.level := by
@@ -80,7 +86,7 @@ theorem textLineStep_level (op : Options) (io : IndentOpts) (mx : Nat) (acc : Ou
   · rfl
   · simp only
     (repeat' split) <;> (try simp) <;>
-      (rw [foldl_level _ (textLineStep_level op io _)]; simp)
+      (rw [textLines_level]; simp)
 
 theorem indent_level (op : Options) (io : IndentOpts) : ∀ (fuel : Nat),
     (∀ node index hasParent o, (indentElement op io fuel node index hasParent o).level = o.level) ∧
